@@ -140,9 +140,9 @@ MC = {
     "C10": ["NoCrash", "StreamOwnerIsReserver", "OkHasBody", "NoGhostInvoke (two-caller configuration included)"],
     "C18": ["RestoreOkOnlyAfterHook", "NoCrash", "RuntimeAfterRegistrations (snapshot-mode configuration included)"],
 }
-FORCED = {"C02": "stale-error-in-flight, stale-response-in-flight", "C03": "clear-vs-invoke, register-vs-close", "C04": "dispatch-held",
+FORCED = {"C01": "late-done-ok, late-done-fail", "C02": "stale-error-in-flight, stale-response-in-flight, stale-error-slow-body, stale-response-slow-big", "C03": "clear-vs-invoke, register-vs-close", "C04": "dispatch-held",
           "C05": "ghost-invoke, clear-vs-invoke, stale-shutdown", "C08": "watch-late-cancel, clear-vs-invoke, stale-failure-record",
-          "C10": "double-reset, late-release"}
+          "C10": "double-reset, late-release, final-release, late-done-ok, late-done-fail"}
 SIMULATED = ("C07", "C12", "C13")
 RAPID = ["C01", "C02", "C03", "C04", "C05", "C06", "C07", "C08", "C09", "C10", "C12", "C13", "C14", "C15", "C18"]
 
